@@ -6,6 +6,7 @@ import (
 	"context"
 	"crypto/tls"
 	"crypto/x509"
+	"errors"
 	"net"
 	"time"
 
@@ -125,8 +126,18 @@ func VerifC07Dial() {
 	if !holds {
 		peers, own = append(peers, vfQueuedServerPeer(l, script)), own+1
 	}
-	answering := vf.Int("answering-peers", 0, 2)
+	// a server that refuses the hello with an alert (it no longer has the root the node asked for): the node sees a
+	// *net.OpError, as crypto/tls reports every remote alert
+	refuser := func() net.Conn {
+		p := &vfServerPeerLive{HoldsLeafKey: true, RequestsClientCert: true, RefuseErr: &net.OpError{Op: "remote error", Err: errors.New("tls: unrecognized name")}}
+		p.Respond = func(protos []string) (string, [][]byte, bool) { return "", nil, false }
+		p.Conn = vf.RespondingServerConn(p.Respond, vf.Pkcs8(6), true, rootSubjects)
+		return p
+	}
+	answering := vf.Int("answering-peers", 0, 3)
 	switch answering {
+	case 3:
+		peers, own = append(peers, refuser(), vfQueuedServerPeer(l, script)), own+1
 	case 0:
 		peers, own = append(peers, vfQueuedServerPeer(l, script)), own+1
 	case 1:
